@@ -538,7 +538,7 @@ class Client(base_client.BaseClient):
         self.logger.info('Engine.IO connection dropped')
         will_reconnect = self.reconnection and self.eio.state == 'connected'
         if self.connected:
-            for n in self.namespaces:
+            for n in list(self.namespaces):
                 self._trigger_event('disconnect', n, reason)
                 if not will_reconnect:
                     self._trigger_event('__disconnect_final', n)
